@@ -137,6 +137,8 @@ def combos(tier):
 def tasks(tier):
     ts = [{"what": "call", "shape": s, "style": list(st)} for s, st in combos(tier)]
     ts += [{"what": w} for w in ("shadow", "errors", "unbound")]
+    ts += [{"what": "spelling", "names": HOST_NAMES[i::4]} for i in range(4)]
+    ts += [{"what": "receivers"}]
     ts += [{"what": "reachable", "case": c} for c in REACHABLE]
     return ts
 
@@ -153,6 +155,12 @@ def run_task(task, kf):
             if task["case"] == "tolerant-host-error" and runner == "compiled":
                 continue  # instrumented callables of this module are out of reach of generated code (known findings C14-compiled-*)
             out.append(explore.explore(_reachable_harness(task["case"], runner), kf, profile_root=loader.SRC))
+        elif task["what"] == "spelling":
+            if runner == "interp":  # host callables of this module are out of reach of generated code (known findings C14-compiled-*)
+                out.append(explore.explore(_spelling_harness(task["names"], runner), kf, profile_root=loader.SRC))
+        elif task["what"] == "receivers":
+            if runner == "interp":
+                out.append(explore.explore(_receiver_harness(runner), kf, profile_root=loader.SRC))
         elif task["what"] == "errors":
             out += [explore.explore(h, kf) for h in _error_harnesses(runner)]
         else:
@@ -251,6 +259,82 @@ def _shadow_harness(runner):
         return {"check": "c14.shadow", "args": enc({"runner": runner, "vals": vals})}
 
     return Harness(id=f"C14/shadow@{runner}", vars={"a": A}, pre=[A >= -LIM, A <= LIM], run=run, witness=witness, max_paths=10)
+
+
+# names a host function may plausibly have (also names of list / string helpers that a later version might turn into macros or
+# built-ins); the macro names the library already reserves (map, filter, all, exists, exists_one, reduce, min) are not host-callable
+# in method spelling and are left out
+HOST_NAMES = ["f", "max", "sum", "join", "first", "last", "sort", "reverse", "flatten", "lower", "upper", "get", "keys", "values", "index", "find",
+              "format", "distinct", "avg", "count", "len", "abs", "round", "split", "replace", "trim", "slice", "isEmpty", "orValue", "bind"]
+
+
+def _spelling_harness(names, runner):
+    """`a.NAME(b)` and `NAME(a, b)` both invoke the supplied function once with (a, b), whatever the function is called"""
+    celpy, ct, ev = common.mods()
+    A, B = z3.Int("a"), z3.Int("b")
+    progs = []
+    for nm in names:
+        for form, src in (("method", f"a.{nm}(b)"), ("global", f"{nm}(a, b)"), ("method0", f"a.{nm}()")):
+            try:
+                progs.append((nm, form, src, common.make_program(src, runner, functions={nm: host_f}), None))
+            except Exception as ex:  # noqa: BLE001
+                progs.append((nm, form, src, None, ex))
+
+    def run(vals):
+        b = {"a": ct.IntType(mk(SInt, A, vals["a"])), "b": ct.IntType(mk(SInt, B, vals["b"]))}
+        obs = []
+        for nm, form, src, prog, err in progs:
+            tags = {"runner": runner, "name": nm, "form": form}
+            if prog is None:
+                obs.append(Ob(f"C14/spelling/program-construction@{runner}", z3.BoolVal(False), note=f"`{src}`: {type(err).__name__}: {err}"[:160], tags=tags))
+                continue
+            del CALLS[:]
+            kd, r = common.outcome(lambda: prog.evaluate(dict(b)))
+            want = _f(A) if form == "method0" else _f(A, B)
+            nargs = 1 if form == "method0" else 2
+            ok = kd == "value" and isinstance(r, int) and len(CALLS) == 1 and len(CALLS[0][1]) == nargs
+            obs.append(Ob(f"C14/spelling/{form}@{runner}", z3.And(tm(r) == want, *[tm(x) == t for x, t in zip(CALLS[0][1], (A, B))]) if ok else z3.BoolVal(False),
+                          note=f"`{src}` with a host function named {nm}: {kd} {str(r)[:60]}, {len(CALLS)} invocation(s)", tags=tags))
+        return obs
+
+    def witness(vals):
+        return {"check": "c14.spelling", "args": enc({"names": names, "runner": runner, "vals": vals})}
+
+    return Harness(id=f"C14/spelling/{names[0]}..@{runner}", vars={"a": A, "b": B}, pre=[A >= -LIM, A <= LIM, B >= -LIM, B <= LIM], run=run, witness=witness, max_paths=10)
+
+
+def host_rec(*args):
+    CALLS.append(("rec", args))
+    celpy, ct, ev = common.mods()
+    return ct.IntType(100 + len(args))
+
+
+RECEIVERS = ["null", "0", "''", "false", "[]", "{}", "0u", "0.0", "b''", "n", "m.k"]
+
+
+def _receiver_harness(runner):
+    """the receiver of the method spelling is the first argument, also when it is null or another falsy value"""
+    celpy, ct, ev = common.mods()
+    B = z3.Int("b")
+    progs = [(rc, form, src, common.make_program(src, runner, functions={"g": host_rec}))
+             for rc in RECEIVERS for form, src in (("method", f"({rc}).g(b)"), ("global", f"g({rc}, b)"))]
+
+    def run(vals):
+        b = {"b": ct.IntType(mk(SInt, B, vals["b"])), "n": None, "m": ct.MapType({ct.StringType("k"): None})}
+        obs = []
+        for rc, form, src, prog in progs:
+            del CALLS[:]
+            kd, r = common.outcome(lambda: prog.evaluate(dict(b)))
+            ok = kd == "value" and len(CALLS) == 1 and len(CALLS[0][1]) == 2 and isinstance(CALLS[0][1][1], int)
+            recv_ok = ok and ((CALLS[0][1][0] is None) if rc in ("null", "n", "m.k") else (CALLS[0][1][0] is not None and not bool(CALLS[0][1][0])))
+            obs.append(Ob(f"C14/receiver/{form}@{runner}", z3.And(tm(r) == 102, tm(CALLS[0][1][1]) == B) if recv_ok else z3.BoolVal(False),
+                          note=f"`{src}`: {kd} {str(r)[:60]}; invocations {[(n_, len(a_)) for n_, a_ in CALLS]}", tags={"runner": runner, "receiver": rc, "form": form}))
+        return obs
+
+    def witness(vals):
+        return {"check": "c14.receivers", "args": enc({"runner": runner, "vals": vals})}
+
+    return Harness(id=f"C14/receivers@{runner}", vars={"b": B}, pre=[B >= -LIM, B <= LIM], run=run, witness=witness, max_paths=10)
 
 
 ERR_FUNCS = {"returns-error": "host_err", "raises-ValueError": "host_raise_value", "raises-TypeError": "host_raise_type"}
